@@ -229,6 +229,52 @@ def colour_domain(view):
     return [z3.ULE(c, 1) for c in view.C]
 
 
+def link_typed(view):
+    """every link field of every slot - in the tree, free, or the sentinel - is the empty marker or a slot number below
+    the buffer length (links are only ever written from slot numbers, NIL and EMPTY_REF; free slots keep stale ones)"""
+    out = []
+    for arr in (view.P, view.L, view.R):
+        for x in arr:
+            out.append(z3.Or(x == EMPTY32, z3.ULT(x, view.n)))
+    return out
+
+
+def stale_edge(view, in_tree, x, xfree):
+    """free slot x has a stale parent link to a *free* slot p that still links back to x (possible after `clear`, or when a
+    node was freed while its stale child link pointed at a node that was freed later)"""
+    p = view.P[x] if isinstance(x, int) else view.pick(view.P, x)
+    xi = bv(x, 32) if isinstance(x, int) else x
+    back = z3.Or(view.pick(view.L, p) == xi, view.pick(view.R, p) == xi)
+    pfree = z3.And(view.valid(p), z3.Not(view.pick(in_tree, p)))
+    return z3.And(xfree, pfree, back), p
+
+
+def stale_acyclic_witness(view, in_tree, tag):
+    """the stale back-linked parent relation among free slots is acyclic (ghost rank strictly decreases along it):
+    a stale child link always goes from an earlier-freed slot to a later-freed one"""
+    rk = [z3.BitVec(f'rk{i}_{tag}', 8) for i in range(view.n)]
+    out = []
+    for x in range(1, view.n):
+        e, p = stale_edge(view, in_tree, x, z3.Not(in_tree[x]))
+        out.append(z3.Implies(e, z3.ULT(view.pick(rk, p), rk[x])))
+    return out
+
+
+def stale_acyclic_closed(view, in_tree):
+    """closed form: following stale back-linked parents from any free slot stops within n-1 steps"""
+    out = []
+    n = view.n
+    for x in range(1, n):
+        cur = bv(x, 32)
+        alive = b_not(in_tree[x]) if not isinstance(in_tree[x], bool) else (TRUE if not in_tree[x] else FALSE)
+        for k in range(n - 1):
+            e, p = stale_edge(view, in_tree, cur, z3.And(view.valid(cur), z3.Not(view.pick(in_tree, cur))))
+            alive = b_and(alive, e)
+            cur = p
+        out.append(z3.Not(alive))
+    return out
+
+
 def k10(k):
     return z3.ZeroExt(2, k) + 1
 
@@ -249,6 +295,7 @@ def inv_witness(view, tag):
     INF = (1 << KW) + 1
     f = [view.buffer.len == n, z3.Not(it[0]), z3.Or(root == EMPTY32, valid(root))]
     f += colour_domain(view)
+    f += link_typed(view)
     cnt = bv(0, 64)
     for i in range(1, n):
         p, l, r, c, k = P[i], L[i], R[i], C[i], K[i]
@@ -277,6 +324,7 @@ def inv_witness(view, tag):
         g.append(z3.Or(l == EMPTY32, l != r))
         f.append(z3.Implies(it[i], z3.And(g)))
     f.append(z3.If(root == EMPTY32, cnt == 0, pick(it, root)))
+    f += stale_acyclic_witness(view, it, tag)
     u = view.unused
     f.append(u.len == bv(n - 1, 64) - cnt)
     f.append(z3.ULE(u.len, u.cap))
@@ -340,6 +388,8 @@ def inv_closed(view):
     G['links'] = links
     G['redred'] = redred
     G['colour'] = [z3.Implies(in_tree[i], z3.ULE(C[i], 1)) for i in range(1, n)]
+    G['linktyped'] = link_typed(view)
+    G['stale'] = stale_acyclic_closed(view, in_tree)
     bst = []
     for a in range(1, n):
         for k in range(1, n - 1):
